@@ -204,9 +204,11 @@ def run_validator(ctx, nfile):
         pf = env.path('bogus.yaml' if missing else 'test.yaml')
         with open(env.path('test.conf'), 'w') as f:
             f.write('[oslo_policy]\npolicy_file=%s\n' % pf)
-        enforcer = policy.Enforcer(conf)
+        from oslo_policy import opts
+        opts._register(conf)
         conf(args=['--config-dir', env.dir], project='verifval',
              default_config_files=[], default_config_dirs=[])
+        enforcer = policy.Enforcer(conf)
         enforcer.register_defaults([policy.RuleDefault('reg1', 'role:a'),
                                     policy.RuleDefault('reg2', 'role:b')])
         out = io.StringIO()
